@@ -7,7 +7,7 @@ use super::batch::Update;
 use crate::storage::{StorageError, StorageResult};
 use serde::{Deserialize, Serialize};
 use std::fs::{self, File, OpenOptions};
-use std::io::{BufRead, BufReader, BufWriter, Write};
+use std::io::{BufWriter, Write};
 use std::path::PathBuf;
 
 /// A WAL entry containing shard and update information
@@ -154,13 +154,14 @@ impl PersistWal {
             return Ok(Vec::new());
         }
 
-        let file = File::open(&self.current_file)?;
-        let reader = BufReader::new(file);
+        // Read raw bytes and decode per line: a torn tail may end inside a
+        // multi-byte UTF-8 character, which must not abort recovery.
+        let bytes = fs::read(&self.current_file)?;
         let mut entries = Vec::new();
         let mut lines: Vec<String> = Vec::new();
 
-        for line in reader.lines() {
-            let line = line?;
+        for raw in bytes.split(|b| *b == b'\n') {
+            let line = String::from_utf8_lossy(raw).into_owned();
             if line.trim().is_empty() {
                 continue;
             }
